@@ -260,3 +260,57 @@ package runtime
 //@ ensures C03 closed-close-does-not-return: p != nil && !cs_old(p.close)
 //@ ensures C10 closed: cs_new(p.close) && cs_new(p.len) == cs_old(p.len) && cs_new(p.getp) == cs_old(p.getp)
 //@ modifies everything
+
+//@ func ChanTrySend
+//@ props C10 C03
+//@ arith int
+//@ opt panic_writes allowed
+//@ lock Chan.mutex protects p.getp, p.len, p.close, p.sends, p.selsends, p.sops, p.data, bytes(chanbuf(p), p.cap*eltSize)
+//@ lock Chan.mutex invariant inv: chaninv(p, v, eltSize)
+//@ requires chanpre(p, v, eltSize) && v != nil
+//@ ensures C03 closed-send-does-not-return: !cs_old(p.close)
+//@ ensures_panic C03 panics-only-when-closed: cs_old(p.close)
+//@ ensures C10 full: p.cap > 0 ==> (result <==> cs_old(p.len) < p.cap)
+//@ ensures C10 sent-header: p.cap > 0 && result ==> cs_new(p.len) == cs_old(p.len) + 1 && cs_new(p.getp) == cs_old(p.getp) && cs_new(p.close) == cs_old(p.close)
+//@ ensures C10 sent-slot: p.cap > 0 && result ==> forall a uintptr :: inslot(a, p, (cs_old(p.getp) + cs_old(p.len)) % p.cap, eltSize) ==> cs_new(mem[a]) == cs_old(mem[v + (a - slotaddr(p, (p.getp + p.len) % p.cap, eltSize))])
+//@ ensures C10 sent-others: p.cap > 0 && result ==> forall a uintptr :: inbuf(a, p, eltSize) && !inslot(a, p, (cs_old(p.getp) + cs_old(p.len)) % p.cap, eltSize) ==> cs_new(mem[a]) == cs_old(mem[a])
+//@ ensures C10 not-sent: p.cap > 0 && !result ==> cs_new(p.len) == cs_old(p.len) && cs_new(p.getp) == cs_old(p.getp) && forall a uintptr :: inbuf(a, p, eltSize) ==> cs_new(mem[a]) == cs_old(mem[a])
+//@ modifies everything
+
+//@ func ChanRecv
+//@ props C10
+//@ arith int
+//@ lock Chan.mutex protects p.getp, p.len, p.close, p.sends, p.selsends, p.sops, p.data, bytes(chanbuf(p), p.cap*eltSize)
+//@ lock Chan.mutex invariant inv: chaninv(p, v, eltSize)
+//@ requires chanpre(p, v, eltSize) && p.cap > 0
+//@ loop 1 invariant inv: false
+//@ loop 2 invariant inv: chaninv(p, v, eltSize) && p.cap > 0
+//@ loop 3 invariant inv: false
+//@ ensures C10 closed-empty: !recvOK ==> cs_old(p.close) && cs_old(p.len) == 0 && cs_new(p.len) == 0 && cs_new(p.getp) == cs_old(p.getp)
+//@ ensures C10 recv-header: recvOK ==> cs_old(p.len) > 0 && cs_new(p.len) == cs_old(p.len) - 1 && cs_new(p.getp) == (cs_old(p.getp) + 1) % p.cap && cs_new(p.close) == cs_old(p.close)
+//@ ensures C10 recv-value: recvOK && v != nil ==> forall b uintptr :: b < uintptr(eltSize) ==> mem[v + b] == cs_old(mem[slotaddr(p, p.getp, eltSize) + b])
+//@ ensures C10 buffer-kept: forall a uintptr :: inbuf(a, p, eltSize) ==> cs_new(mem[a]) == cs_old(mem[a])
+//@ modifies everything
+
+//@ func chanTryRecv
+//@ props C10
+//@ arith int
+//@ lock Chan.mutex protects p.getp, p.len, p.close, p.sends, p.selsends, p.sops, p.data, bytes(chanbuf(p), p.cap*eltSize)
+//@ lock Chan.mutex invariant inv: chaninv(p, v, eltSize)
+//@ requires chanpre(p, v, eltSize) && p.cap > 0
+//@ loop 1 invariant inv: false
+//@ ensures C10 empty: !tryOK ==> !recvOK && cs_old(p.len) == 0 && !cs_old(p.close) && cs_new(p.len) == 0 && cs_new(p.getp) == cs_old(p.getp)
+//@ ensures C10 closed-empty: tryOK && !recvOK ==> cs_old(p.close) && cs_old(p.len) == 0 && cs_new(p.len) == 0 && cs_new(p.getp) == cs_old(p.getp)
+//@ ensures C10 recv-header: recvOK ==> tryOK && cs_old(p.len) > 0 && cs_new(p.len) == cs_old(p.len) - 1 && cs_new(p.getp) == (cs_old(p.getp) + 1) % p.cap && cs_new(p.close) == cs_old(p.close)
+//@ ensures C10 recv-value: recvOK && v != nil ==> forall b uintptr :: b < uintptr(eltSize) ==> mem[v + b] == cs_old(mem[slotaddr(p, p.getp, eltSize) + b])
+//@ ensures C10 buffer-kept: forall a uintptr :: inbuf(a, p, eltSize) ==> cs_new(mem[a]) == cs_old(mem[a])
+//@ modifies everything
+
+//@ func NewChan
+//@ props C10
+//@ arith int
+//@ opt init yes
+//@ requires eltSize >= 0 && eltSize < 1<<16 && cap < 1<<28
+//@ ensures C10 fresh: result != nil && result.len == 0 && result.getp == 0 && !result.close
+//@ ensures C10 cap: (cap > 0 ==> result.cap == cap && valid(result.data, cap*eltSize)) && (cap <= 0 ==> result.cap == 0)
+//@ modifies nothing
